@@ -23,9 +23,16 @@ pub fn make_pool(_n: usize) -> Pool {}
 
 pub type Builder = DispatcherBuilder<'static, 'static>;
 
+/// the builders of the next cases get no pool: `build()` (or the first `add_batch`) creates the
+/// crate's default pool, sized by the crate from what the machine offers
+pub static NO_POOL: std::sync::atomic::AtomicBool = std::sync::atomic::AtomicBool::new(false);
+
 pub fn new_builder(pool: &Pool) -> Builder {
     #[cfg(feature = "parallel")]
     {
+        if NO_POOL.load(SeqCst) {
+            return DispatcherBuilder::new();
+        }
         DispatcherBuilder::new().with_pool(pool.clone())
     }
     #[cfg(not(feature = "parallel"))]
